@@ -307,7 +307,7 @@ fn wrap_breaking_body(sequence: &Sequence, body: Doc, multi_branch: bool) -> Doc
 /// internally, rather than forcing the whole chain onto `~>` lines.
 fn chain_doc(trivia: &Trivia, chain: &Chain) -> Doc {
     let prefix = match &chain.match_pattern {
-        Some(pattern) => pretty::text(format!("{} = ", render_match(pattern))),
+        Some(pattern) => lines_doc(format!("{} = ", render_match(pattern))),
         None => pretty::nil(),
     };
     let terms = &chain.terms;
@@ -344,7 +344,7 @@ fn chain_doc(trivia: &Trivia, chain: &Chain) -> Doc {
         && !is_breakable_container(&terms[terms.len() - 1])
     {
         return pretty::group(pretty::concat(vec![
-            pretty::text(format!("{} =", render_match(pattern))),
+            lines_doc(format!("{} =", render_match(pattern))),
             pretty::nest(2, pretty::concat(vec![pretty::line(), inner])),
         ]));
     }
@@ -410,8 +410,21 @@ fn term_doc(trivia: &Trivia, term: &Term) -> Doc {
         Term::Function(function) => function_doc(trivia, function),
         Term::Spawn(inner, _) => spawn_doc(trivia, inner),
         Term::Select(sources, _) => select_doc(trivia, sources),
-        atom => pretty::text(render_term_atom(atom)),
+        atom => lines_doc(render_term_atom(atom)),
     }
+}
+
+/// The doc of rendered text that may span lines — only a pattern holding a `"""` string does: each
+/// line is set at the ambient indentation, like the lines of a `"""` string term (that indentation
+/// becomes the margin the parser strips, see [`multiline_string_doc`]).
+fn lines_doc(rendered: String) -> Doc {
+    if !rendered.contains('\n') {
+        return pretty::text(rendered);
+    }
+    pretty::join(
+        pretty::hardline(),
+        rendered.split('\n').map(pretty::text).collect(),
+    )
 }
 
 /// Render an atomic (never-breaking) term to a string. Container terms are handled by [`term_doc`]
@@ -1249,12 +1262,21 @@ fn render_match(pattern: &Match) -> String {
     match pattern {
         Match::Identifier(name, _) => name.clone(),
         Match::Literal(literal) => render_literal(literal),
-        // A string pattern renders as a single-line `"…"` regardless of how it was written: the
-        // match formatter is string-based and can't lay out a multi-line block, so a `"""…"""`
-        // pattern (rare) collapses to single-line, with newlines escaped.
-        Match::String(_, bytes) => {
+        // A string pattern renders in its original delimiter style, like a string term. The match
+        // formatter is string-based, so a `"""…"""` block is rendered with its line breaks, which the
+        // callers lay out ([`lines_doc`]).
+        Match::String(style, bytes) => {
             let text = std::str::from_utf8(bytes).expect("string pattern text is UTF-8");
-            format!("\"{}\"", escape_single_line_text(text))
+            match style {
+                StringStyle::Single => format!("\"{}\"", escape_single_line_text(text)),
+                StringStyle::Multi => {
+                    let lines = text
+                        .split('\n')
+                        .map(|line| protect_trailing_spaces(escape_multiline_text(line)))
+                        .collect::<Vec<_>>();
+                    format!("\"\"\"\n{}\n\"\"\"", lines.join("\n"))
+                }
+            }
         }
         Match::Tuple(tuple) => render_match_tuple(tuple),
         Match::Partial(partial) => render_partial_pattern(partial),
